@@ -90,6 +90,10 @@ def run_execution(scenario, prefix: List[str], opts: Dict[str, Any]) -> Executio
     saved_handlers, saved_level = root.handlers[:], root.level
     root.handlers[:] = [seams._Quiet()]
     saved_raise, logging.raiseExceptions = logging.raiseExceptions, False
+    try:
+        signal.signal(signal.SIGINT, signal.default_int_handler)
+    except ValueError:
+        pass
     seams.install(scheduler)
     if scheduler.line_points:
         seams.enable_line_points(opts["line_package"])
